@@ -352,11 +352,15 @@ func (r *condition) isEqual(o *condition) error {
 		return errorf("Condition keyword mismatch")
 	}
 
-	if r.op.String() != o.op.String() {
+	if r.op == nil || o.op == nil {
+		// no operator on one side: equal only
+		// if there is none on either side.
+		if r.op != nil || o.op != nil {
+			return errorf("Condition operator mismatch")
+		}
+	} else if r.op.String() != o.op.String() {
 		return errorf("Condition operator mismatch")
-	}
-
-	if r.op.Context() != o.op.Context() {
+	} else if r.op.Context() != o.op.Context() {
 		return errorf("Condition operator (context) mismatch")
 	}
 
